@@ -1,1 +1,6 @@
-/- C17 property theorems (stub: not built yet) -/
+/- C17 property theorems (being built) -/
+import ThriftVerif.Lib.Dump
+import ThriftVerif.Generated.C17
+namespace Props.C17
+theorem generated_cfg_is_std : Generated.C17.cfg = Dump.stdCfg := by decide
+end Props.C17
